@@ -384,7 +384,7 @@ func c19Eligibility(sc *scenario) mc.Harness {
 		sort.Strings(g)
 		return fmt.Sprintf("variant %d mode %o: %v", cur, variants[cur].mode, g)
 	}
-	h.Cleanup = func() {}
+	h.Cleanup = func() { W = nil }
 	// the explorer runs one harness; iterate the variants through a wrapper
 	eligVariants = len(variants)
 	eligSet = func(i int) { cur = i }
